@@ -209,6 +209,8 @@ class C04(Prop):
             "prelude": gen.prelude(),
             # a second live connection in the same process (interleaved with this one, or blocked in a send)
             "companion": gen.companion(),
+            # connect() options that must not matter here
+            "copts_noise": gen.copts_noise(("poll", "ping_rate", "ping_timeout", "close_timeout")),
             "deflate": st.sampled_from([0, 0, 1, 1, 2]),
             "client_closing": gen.weighted([(5, st.just(False)), (1, st.just(True))]),
         })
